@@ -122,6 +122,10 @@ func (c *Content) WithFileInfoDefaults(umask fs.FileMode, mtime time.Time) *Cont
 	}
 	if cc.FileInfo == nil {
 		cc.FileInfo = &ContentFileInfo{}
+	} else {
+		// never write the defaults into the file info of the caller
+		fileInfo := *cc.FileInfo
+		cc.FileInfo = &fileInfo
 	}
 	if cc.FileInfo.Owner == "" {
 		cc.FileInfo.Owner = "root"
